@@ -64,6 +64,33 @@ def _copies_iter(cfg, expr: ast.expr, at, stop: str, in_test: set, in_loop: set,
     return out
 
 
+def _flag_guarded(fn: ast.AST, loop: ast.For, test_if: ast.If) -> list[list]:
+    """blocks of the loop body executed only when `test_if.test` held in the same iteration, by way of a flag: a local whose only
+    assignments are `flag = False` as a statement of the loop body itself before ``test_if`` (every iteration starts with it) and
+    `flag = True` inside the body of ``test_if``; the blocks are the bodies of `if flag:` (or the else of `if not flag:`) that follow ``test_if`` in the loop"""
+    out = []
+    under = {id(x) for s in test_if.body for x in ast.walk(s)}
+    resets = [s for s in loop.body if isinstance(s, ast.Assign) and len(s.targets) == 1 and isinstance(s.targets[0], ast.Name)
+              and isinstance(s.value, ast.Constant) and s.value.value is False and seq(s) < seq(test_if)]
+    for r in resets:
+        flag = r.targets[0].id
+        a = fn.args
+        if flag in {x.arg for x in a.posonlyargs + a.args + a.kwonlyargs} or any(isinstance(n, (ast.Global, ast.Nonlocal)) and flag in n.names for n in ast.walk(fn)):
+            continue
+        stores = [n for n in ast.walk(fn) if isinstance(n, ast.Name) and n.id == flag and not isinstance(n.ctx, ast.Load)]
+        sets = [n for n in ast.walk(fn) if isinstance(n, ast.Assign) and len(n.targets) == 1 and isinstance(n.targets[0], ast.Name) and n.targets[0].id == flag and n is not r]
+        if len(stores) != len(sets) + 1 or not sets or not all(id(n) in under and isinstance(n.value, ast.Constant) and n.value.value is True for n in sets):
+            continue
+        for n in ast.walk(loop):
+            if isinstance(n, ast.If) and n is not test_if and id(n) not in under and seq(n) > seq(test_if):
+                t = n.test
+                if isinstance(t, ast.Name) and t.id == flag:
+                    out.append(n.body)
+                elif isinstance(t, ast.UnaryOp) and isinstance(t.op, ast.Not) and isinstance(t.operand, ast.Name) and t.operand.id == flag and n.orelse:
+                    out.append(n.orelse)
+    return out
+
+
 def _under_not_none(fn: ast.AST, w: ast.Assign) -> bool:
     """the assignment ``w`` of a local stands in the body of `if <that local> is not None`"""
     if not isinstance(w.value, ast.Name):
@@ -285,6 +312,9 @@ def run(ctx: Ctx) -> None:
     if len(chosen_if) == 1 and writes:
         cfg = cfg_of(f.node)
         in_test = {cfg.node_of(x) for s in chosen_if[0].body for x in ast.walk(s)} - {None}
+        # statements of the same iteration guarded by a boolean flag that is reset at the top of the iteration and set only under the test
+        # stand under the test as well
+        in_test |= {cfg.node_of(x) for blk in _flag_guarded(f.node, lp, chosen_if[0]) for s in blk for x in ast.walk(s)} - {None}
         lp_node = cfg.node_of(lpdef)
         in_loop = {cfg.node_of(x) for s in lp.body for x in ast.walk(s)} - {None}
         leaves = [(w, leaf, at, same) for w in writes for leaf, at, same in _copies_iter(cfg, w.value, cfg.node_of(w), lpv, in_test, in_loop)]
